@@ -24,9 +24,10 @@ CONSTANTS Names,       \* result names
           MaxRuns,     \* bound on Optimize steps
           MaxWrites,   \* bound on item writes
           MaxRemoves,  \* bound on Remove steps
+          MaxFails,    \* bound on OptimizeFails steps (a save that fails midway and leaves a partial run folder)
           Lookups      \* TRUE: the pure lookups are transitions (checking); FALSE: tabulated per state (emission)
 
-VARIABLES runs,     \* set of [name, n, tok]
+VARIABLES runs,     \* set of [name, n, tok]; tok = 0: a PARTIAL run folder (left by a save that failed midway, no result.yml)
           made,     \* Name -> number of Optimize steps so far (content token source)
           nopt, nrem,
           files,    \* Kind -> number of writes (0 = absent)
@@ -62,6 +63,18 @@ Optimize(nm) ==
   /\ made' = [made EXCEPT ![nm] = @ + 1]
   /\ nopt' = nopt + 1
   /\ UNCHANGED <<nrem, files, nwrites>>
+
+(* the save of a run fails midway (a plugin raises after some files were written): the folder <name>_run_<n> exists without   *)
+(* result.yml.  Its number is TAKEN all the same: the next run of that name gets n + 1 and the leftover files are never     *)
+(* touched (FreshIncreasing, EarlierRunsUnchanged range over partial folders too).                                          *)
+Partial == {r \in runs : r.tok = 0}
+OptimizeFails(nm) ==
+  /\ nopt < MaxRuns /\ Cardinality(Partial) < MaxFails
+  /\ LET n == NextNr(runs, nm) IN
+       /\ runs' = runs \cup {[name |-> nm, n |-> n, tok |-> 0]}
+       /\ last' = Obs("optimize_fails", nm, [name |-> nm, n |-> n], "PluginError", FALSE, FALSE)
+  /\ nopt' = nopt + 1
+  /\ UNCHANGED <<made, nrem, files, nwrites>>
 
 (* the user deletes a run folder *)
 Remove(nm, n) ==
@@ -113,6 +126,7 @@ ItemOp(k, ign, allow) ==
   /\ UNCHANGED <<runs, made, nopt, nrem>>
 
 Next == \/ \E nm \in Names : Optimize(nm)
+        \/ \E nm \in Names : OptimizeFails(nm)
         \/ \E nm \in Names, n \in 0..(MaxRuns + MaxRemoves) : Remove(nm, n)
         \/ \E nm \in Names : Latest(nm)
         \/ \E nm \in Names, n \in 0..(MaxRuns + MaxRemoves) : Get(nm, n)
@@ -121,8 +135,8 @@ Next == \/ \E nm \in Names : Optimize(nm)
 Spec == Init /\ [][Next]_vars
 
 -------------------------------------------------------------------------------
-Ops == {"init", "optimize", "remove", "latest", "get", "item_written", "item_skipped", "item_refused"}
-TypeOK == /\ \A r \in runs : r.name \in Names /\ r.n \in 0..(MaxRuns + MaxRemoves) /\ r.tok \in 1..MaxRuns
+Ops == {"init", "optimize", "optimize_fails", "remove", "latest", "get", "item_written", "item_skipped", "item_refused"}
+TypeOK == /\ \A r \in runs : r.name \in Names /\ r.n \in 0..(MaxRuns + MaxRemoves) /\ r.tok \in 0..MaxRuns
           /\ nopt \in 0..MaxRuns /\ nrem \in 0..MaxRemoves /\ nwrites \in 0..MaxWrites
           /\ \A k \in Kinds : files[k] \in 0..MaxWrites
           /\ last.op \in Ops
@@ -133,7 +147,7 @@ FoldersDistinct == \A r1, r2 \in runs : Folder(r1.name, r1.n) = Folder(r2.name, 
 
 (* every optimisation is stored under a fresh, strictly larger run number of exactly its name *)
 FreshIncreasing ==
-  [][last'.op = "optimize" =>
+  [][last'.op \in {"optimize", "optimize_fails"} =>
        LET new == runs' \ runs IN
          /\ Cardinality(new) = 1
          /\ \A r \in new : /\ r.name = last'.name /\ r.n = last'.ret.n
